@@ -898,7 +898,9 @@ class Messenger(Connection):
             authn_nodeid = match_id(peer_nodeid, cert, x509.UniformResourceIdentifier, self._logger, 'NODE-ID')
 
             any_fail = (peer_ipaddrid and authn_ipaddrid is False) or (peer_dnsid and authn_dnsid is False) or authn_nodeid is False
-            netname_absent = authn_ipaddrid is None and authn_dnsid is None
+            # A DNS-ID which could not be compared (no DNS name is known for
+            # the peer) authenticates nothing
+            netname_absent = authn_ipaddrid is None and (authn_dnsid is None or not peer_dnsid)
             if any_fail or (netname_absent and self._config.require_host_authn) or (authn_nodeid is None and self._config.require_node_authn):
                 raise TerminateError(messages.SessionTerm.Reason.CONTACT_FAILURE)
 
